@@ -267,10 +267,10 @@ Print Assumptions C10_init_refuted_layout_inplace.
    GC = rebuild, save index, then sweep *)
 Theorem C10_source_order :
   src_inplace = false /\ src_unlink_first = false /\ src_push_order_ok = true /\ src_gc_order_ok = true /\
-  src_layout_inplace = false.
+  src_layout_inplace = false /\ src_guards_ok = true.
 Proof.
   exact (conj src_inplace_false (conj src_unlink_first_false (conj src_push_order
-          (conj src_gc_order src_layout_inplace_false)))).
+          (conj src_gc_order (conj src_layout_inplace_false src_guards))))).
 Qed.
 Print Assumptions C10_source_order.
 
